@@ -119,14 +119,14 @@ MANIFEST_TEXT['C03'] = dict(
     note='Trusted: Coq kernel + vm_compute, translator, generated stubs, payload generator, harness. Concurrent CALLs from many clients are exercised in the thorough tier of C11/C01 only.',
     technique='translator-regenerated dispatch tables + Coq proof over a model of the reply logic + enumerated differential correspondence')
 
-PROPS['C05'] = Prop('C05', harness='c05', entries=['c05v', 'c05vs', 'c05e', 'c05es'], props_file='theories/Props/C05.v', quick_n=1, thorough_n=1,
+PROPS['C05'] = Prop('C05', harness='c05', entries=['c05v', 'c05vs', 'c05e', 'c05es', 'c05t'], props_file='theories/Props/C05.v', quick_n=1, thorough_n=1,
                     trusted=[TRANSLATOR_TRUST, 'committed constraint table coq/theories/Spec/SchemasSpec.v stands in for the OCPP documents',
                              'modelled, validated by this run, not verified: go-playground/validator v9.30 traversal and built-in rules; net/url behind the uri / url rules is known to the model on two shapes only',
                              'generated handler stubs, schema-driven payload generator and single-edit enumerator (tools/internal/stubs)'],
                     assumptions=['the receiver validates the value encoding/json decodes; that decoded value is computed with encoding/json by the harness and given to the model (the JSON layer is C04\'s subject)',
-                                 'wrong-JSON-type edits are exercised with C06'],
+                                 'a payload some fields of which have the wrong JSON type is rejected by encoding/json before validation: the model states only the resulting code'],
                     rule='enumerated: for every request and response type of both versions a valid base payload (all optional fields with boundary lengths; mandatory fields only; thorough: random subsets, 3 seeds) and every single edit of every constrained leaf (drop / zero, length and count at bound-1 / bound / bound+1, numeric bounds, undeclared and case-changed enum value, nil / empty / duplicate array, nil pointer, pointer to zero) through the real validator (failing rule tags compared with the model) and, for requests, through the real send API of the sending role and the receive path of the receiving role (error / written / CALL_ERROR code / handler invoked); counted = distinct encoded cases',
-                    design_ref='5 C05', spec_entries=['c05vs', 'c05es'], monitor_prefixes=['C05'], harness_timeout=1800)
+                    design_ref='5 C05', spec_entries=['c05vs', 'c05es', 'c05t'], monitor_prefixes=['C05'], harness_timeout=1800)
 MANIFEST_TEXT['C05'] = dict(
     text='Coq: the schema trees of all 412 message types regenerated from the source equal the committed constraint table; every array of constrained elements is descended into at every depth (traversal completeness, by vm_compute + forallb lifting); the tag -> error class table equals the specified one; per-rule meaning lemmas of the validator model (required, code-point length, numeric bounds, nil pointer, omitempty). The validator model is run against the real validator on every single-edit case (full list of failing rule tags compared) and against the real send / receive paths of the four endpoint kinds (send error, write, CALL_ERROR code in the connection\'s dialect, handler not invoked); the same cases are also judged by the committed table (reference answers).',
     note='Trusted: Coq kernel + vm_compute, translator, committed constraint table (derived from the pinned tree, repaired for F20 / F25; presence of zero-able mandatory scalars cannot be expressed by the library: F15, described in DESIGN.md), harness. validator.v9 and encoding/json are modelled / used, not verified.',
